@@ -338,7 +338,7 @@ fn region_level(ctx: &mut Ctx, arena: &Arena, region: &[u8], elf_names: bool, me
             for slot in 0..26 {
                 battery::feed(ctx, &passes[0][slot]);
                 if passes[0][slot] != passes[1][slot] {
-                    ctx.violation("c01/stateful-accessor", || format!("call group {} gives different results in declaration order and in reverse order", slot));
+                    ctx.machinery(&format!("call group {} gives different results in declaration order and in reverse order: the statelessness assumption behind the accessor battery (DESIGN 2.4) does not hold", slot));
                 }
             }
         });
